@@ -9,9 +9,9 @@ THEOREMS = ["C05_same_type_is_mutual_assignability", "C05_same_type_answer", "C0
             "C05_difference_is_set_difference", "C05_assignable_implies_inclusion", "C05_basic_types_assignability_is_inclusion",
             "C05_list_types_assignable_implies_inclusion", "C05_list_only_types_assignable_implies_inclusion",
             "C05_list_only_types_not_assignable_has_a_separating_value", "C05_list_only_types_assignability_is_inclusion", "C05_lists_nonvacuous",
-            "C05_flat_object_clause_empty_iff_covered", "C05_flat_object_conjunction_empty_iff_covered", "C05_flat_objects_nonvacuous",
+            "C05_flat_object_clause_empty_iff_covered", "C05_flat_object_conjunction_empty_iff_covered", "C05_index_aware_decider_agrees_on_index_free_atoms", "C05_flat_objects_nonvacuous",
             "C05_nonvacuous"]
-IMPORTS = "From Beff Require Import Model.Cases Model.ListEmpty. From Beff Require Import Model.MappingEmpty."
+IMPORTS = "From Beff Require Import Model.Cases Model.ListEmpty. From Beff Require Import Model.MappingEmpty Model.MappingEmptyIx."
 QUERIES = ["a_sub_b", "b_sub_a", "same", "a_empty", "b_empty"]
 STRUCT = ("Mapping", "List", "Map", "Set")
 
@@ -103,7 +103,7 @@ def basic_type(g, depth=2):
 
 
 def check(run):
-    ok = run.prove("Props.C05", THEOREMS, ["Props/C05.vo", "Model/MappingEmpty.vo"])
+    ok = run.prove("Props.C05", THEOREMS, ["Props/C05.vo", "Model/MappingEmpty.vo", "Model/MappingEmptyIx.vo"])
     common.ensure_harness()
     quick = run.tier == "quick"
     g = typegen.TypeGen(run.seed + 500)
@@ -284,6 +284,37 @@ def check(run):
             env, a, b, how = cases[i]
             mdis.append(("object emptiness model vs the engine", {"named": env, "a": a, "b": b, "pair": how, "impl(a<=b,b<=a,a empty)": want, "model": got}))
     disagree += mdis
+    # the same with index signatures over `string` (Model/MappingEmptyIx.v); other key types make the model throw and are skipped
+    xexprs, xmeta = [], []
+    for i, (env, a, b, how) in enumerate(cases):
+        r0 = res[2 * i]
+        if "ok" not in r0 or "err" in r0["ok"] or "mappings" not in r0["ok"]: continue
+        o0 = r0["ok"]
+        sa, sb, lists, mappings = o0["sem_a"], o0["sem_b"], o0["lists"], o0["mappings"]
+        if any(d is None for _, d in lists) or any(d is None for _, d in mappings): continue
+        if not any(d["indexed"] for _, d in mappings): continue
+        inner = [t for _, d in lists for t in d["prefix"] + [d["items"]]] + [t for _, d in mappings for _, t in d["fields"]] + \
+                [t for _, d in mappings if d.get("index") for t in d["index"]]
+        if not (no_map_set(sa) and no_map_set(sb) and all(no_map_set(t) for t in inner)): continue
+        if not all(isinstance(o0[q], bool) for q in ("a_sub_b", "b_sub_a", "a_empty")): continue
+        ltbl = "[" + "; ".join("(%d%%N, mkLatom %s %s)" % (k, coq_list(bdds.sem_coq(t) for t in d["prefix"]), bdds.sem_coq(d["items"]))
+                               for k, d in lists) + "]"
+        xtbl = "[" + "; ".join("(%d%%N, mkXatom %s %s)" % (k, coq_list("(%s, %s)" % (coq_str(f), bdds.sem_coq(t)) for f, t in d["fields"]),
+                                                              "None" if not d.get("index") else "(Some (%s, %s))" % (bdds.sem_coq(d["index"][0]), bdds.sem_coq(d["index"][1])))
+                               for k, d in mappings) + "]"
+        A, B = bdds.sem_coq(sa), bdds.sem_coq(sb)
+        xexprs.append('let lt := %s in let xt := %s in show_res_bool (sem_is_subtype_x lt xt no_struct 10 %s %s) +++ '
+                      'show_res_bool (sem_is_subtype_x lt xt no_struct 10 %s %s) +++ show_res_bool (sem_is_empty_x lt xt no_struct 10 %s)'
+                      % (ltbl, xtbl, A, B, B, A, A))
+        xmeta.append((i, "".join("t" if o0[q] else "f" for q in ("a_sub_b", "b_sub_a", "a_empty"))))
+    xdis, xskipped = [], 0
+    for (i, want), got in zip(xmeta, common.run_coq_cases(IMPORTS, xexprs, tag="C05ix", shard=40)):
+        if "!" in got:
+            xskipped += 1
+        elif got != want:
+            env, a, b, how = cases[i]
+            xdis.append(("object emptiness model with index signatures vs the engine", {"named": env, "a": a, "b": b, "pair": how, "impl(a<=b,b<=a,a empty)": want, "model": got}))
+    disagree += xdis
     cq = common.run_coq_cases(IMPORTS, exprs, tag="C05")
     for k, (i, sub, same) in enumerate(emeta):
         tf = lambda x: "t" if x else "f"
@@ -300,7 +331,7 @@ def check(run):
                    "left type over a universe derived from both types (a value outside the right type refutes 'assignable'; an exhaustive "
                    "enumeration without such a value refutes 'not assignable'); non-trivial = min(#assignable, #not assignable) among judged")
     cov["correspondence"]["is_subtype / is_same_type of Model/Subtype.v vs the engine, on semtypes without structural components"] = {
-        "cases": len(emeta), "disagreements": len(disagree) - len(ldis) - len(mdis), "distribution": {"pairs": dict(hist)}}
+        "cases": len(emeta), "disagreements": len(disagree) - len(ldis) - len(mdis) - len(xdis), "distribution": {"pairs": dict(hist)}}
     cov["correspondence"]["list_is_empty of Model/ListEmpty.v (bdd_every_result, list_formula_is_empty, list_inhabited) vs the engine, with "
                           "the engine's own list atoms, on pairs whose structural components are lists only"] = {
         "cases": 3 * (len(lmeta) - lskipped), "disagreements": len(ldis),
@@ -311,6 +342,11 @@ def check(run):
         "cases": 3 * (len(mmeta) - mskipped), "disagreements": len(mdis),
         "distribution": {"pairs": len(mmeta), "pairs skipped (recursive types: the model runs out of fuel)": mskipped,
                          "pair kinds": dict(collections.Counter(cases[i][3].split(":")[0] for i, _ in mmeta))}}
+    cov["correspondence"]["xstruct_is_empty of Model/MappingEmptyIx.v (check_mapping_empty with string index signatures, the extra-key step of ed39a94) "
+                          "vs the engine, on pairs whose object atoms carry index signatures"] = {
+        "cases": 3 * (len(xmeta) - xskipped), "disagreements": len(xdis),
+        "distribution": {"pairs": len(xmeta), "pairs skipped (other key types, recursive types)": xskipped,
+                         "pair kinds": dict(collections.Counter(cases[i][3].split(":")[0] for i, _ in xmeta))}}
     cov["spec_checks"]["decisions vs inclusion of value sets"] = {
         "pairs": len(cases), "directions_judged": agree[True] + agree[False], "assignable": agree[True], "not_assignable": agree[False],
         "unjudged (bounded enumeration not exhaustive, or conversion error)": unjudged,
